@@ -101,6 +101,49 @@ M_STATS = [M("m_stats_%s_bytes" % n, "%s over a store whose slot walk yields eve
            for n, d in [("klen", "key_length_stats"), ("vlen", "value_length_stats"), ("ksize", "key_piece_size_stats"), ("vsize", "value_piece_size_stats")]]
 M_SETUP = M("m_setup_reachable", "vacuity twin: the constructed pre-state is satisfiable in its largest shapes and satisfies I2", cap=300)
 
+
+# ---------------------------------------------------------------------------- layer B
+B_TB = ["layer B runs the real crate (vfile.rs, htx.rs, header code of key.rs/val.rs, open_with_params) over an in-memory byte model of rabuf::BufFile patched in with [patch.crates-io] (kani/rabuf_model: zero-fill, seek past the end extends, reads past the end return zeros, flush/sync counters, read-only latch, write-back fault); the model is validated natively against the real rabuf (bin/validate_models)",
+        "std::fs::OpenOptions::open, alloc::fmt::format and <io::Error as Debug>::fmt are stubbed in the open_with_params harnesses (no file system under CBMC)"]
+B_ASSUME = ["table images: every byte a solver variable except the three pinned header words; the occupancy bitmap agrees with the bucket heads (the part of the representation invariant that htx.rs itself maintains, shown preserved by b_bucket_*)"]
+F_SCAN = ["htx.rs VarFile::next_key_piece_offset", "vfile.rs seek_from_start / seek_back_size / read_u64_le / read_u8"]
+F_BKT = ["htx.rs VarFile::write_key_piece_offset", "htx.rs VarFile::read_key_piece_offset"]
+
+
+def B(name, what, cap=600, tier="quick", stub=False, **kw):
+    kw.setdefault("assumptions", B_ASSUME)
+    return H("b", name, what, tier=tier, cap=cap, mem_gb=16, stubbing=True, **kw)
+
+
+W_SCAN = "bucket scan contract with a universally quantified bucket j: next_key_piece_offset(n, idx) returns (r+1, head[r]) for the least non-empty bucket r >= idx, else (>= n, 0); no arithmetic overflow, read-only, file length unchanged, all three loops terminate (unwinding assertions)"
+B_SCAN_SMALL = [B("b_scan_n%d" % n, W_SCAN, bounds="table of %d buckets, every byte of table and bitmap symbolic, EVERY start index" % n, functions=F_SCAN, cap=400) for n in (1, 2, 4, 8, 16)]
+B_SCAN_G = {n: B("b_scan_g%d" % n, W_SCAN, bounds="table of %d buckets, every byte symbolic, every group-aligned start index (the unaligned path is the plain linear loop covered for n <= 16)" % n, functions=F_SCAN,
+                 cap=cap, tier=tier) for n, cap, tier in [(32, 600, "quick"), (64, 900, "quick"), (128, 1200, "quick"), (256, 2400, "thorough"), (512, 3600, "thorough")]}
+W_BKT = "write_key_piece_offset(n, idx, off): bucket idx holds off as 8 bytes LE at 128 + 8*idx, its occupancy bit = (off != 0), every other bucket, every other bit, the header and the file length unchanged (universally quantified byte i)"
+B_BUCKET = {n: B("b_bucket_n%d" % n, W_BKT, bounds="table of %d buckets, all bytes, index and new head symbolic" % n, functions=F_BKT, cap=cap, tier=tier) for n, cap, tier in [(1, 300, "quick"), (4, 300, "quick"), (8, 300, "quick"), (16, 400, "quick"), (64, 900, "thorough"), (256, 1800, "thorough")]}
+B_API = [B("b_htx_api_n%d" % n, "HtxFile API: a key's bucket is hash mod n (placement stability), item count is the u64 at 24 and counts up / down (saturating at 0), nothing else of the header moves",
+           bounds="table of %d buckets, symbolic 64-bit hash" % n, functions=["htx.rs HtxFile::read_key_piece_offset", "htx.rs HtxFile::write_key_piece_offset", "htx.rs write_item_count_up/down", "htx.rs read_item_count"], cap=900, tier=t) for n, t in [(2, "quick"), (8, "quick"), (64, "thorough")]]
+B_FILL = [B("b_fill_n%d" % n, "htx_filling_rate_per_mill = (number of non-empty buckets, per mille of n); read-only, file not extended", bounds="table of %d buckets, all bytes symbolic" % n, functions=["htx.rs HtxFile::htx_filling_rate_per_mill"], cap=600, tier=t)
+          for n, t in [(2, "quick"), (8, "quick"), (16, "thorough")]]
+B_HDRW = [B("b_hdr_write_" + f, "header writer of the %s file defines every header byte from arbitrary stale bytes as the documented layout; the crate's own checker accepts it" % f, bounds="all 2^64 type signatures (and bucket counts)",
+            functions=["%s.rs write_*_init_header" % f, "%s.rs check_*_header" % f], cap=300) for f in ("htx", "key", "val")]
+REJ = dict(mode="reject", allowed_fail=[r"invalid header signature1", r"invalid header signature2"], covers_unsat=["foreign header accepted"])
+B_HDRR = [B("b_hdr_reject_" + f, "a %s file whose 16 signature bytes are not exactly (format signature, expected type signature) is refused by the checker before any other field is looked at; nothing is written (read-only latch)" % f,
+            bounds="ALL 2^128 foreign signature pairs x all expected signatures", functions=["%s.rs check_*_header" % f], cap=300, **REJ) for f in ("htx", "key", "val")]
+B_OPENR = [B("b_open_reject_" + f, "the real %s open_with_params refuses a file with a foreign signature pair (no handle is produced, nothing written)" % f, bounds="ALL foreign signature pairs", functions=["%s.rs open_with_params" % f], cap=400, **REJ)
+           for f in ("htx", "key", "val")]
+B_OPEN_NEW = B("b_open_htx_new", "creating a table: bucket count = documented function of the parameters (next power of two; capacity: >= 8, <= 8/9 full), header stores THAT count, length 128+8n+n/8, table+bitmap zero, handle caches the same count, fixed buffers get >= 2 chunks",
+               bounds="BucketsSize(0..16), Capacity(1..14), every buffer-size parameter (Size(u32) / PerMille(u16) / Auto)", functions=["htx.rs HtxFile::open_with_params", "htx.rs capacity_to_buckets_size", "htx.rs write_htxf_init_header"], cap=600)
+B_OPEN_EX = [B("b_open_htx_existing_n%d" % n, "opening an EXISTING table: parameters (any bucket parameter, any buffer parameter) are ignored in favour of the stored count, nothing is written, lookups address hash mod stored n",
+               bounds="stored table of %d buckets, all bytes symbolic; BucketsSize(u64) / Capacity(< 2^60) / Default" % n, functions=["htx.rs HtxFile::open_with_params", "htx.rs check_htxf_header"], cap=600) for n in (8, 2)]
+B_OPEN_DAT = [B("b_open_%s_%s" % (f, e), "%s file %s: %s" % (f, e, "documented 192-byte header written, fixed buffers get >= 2 chunks" if e == "new" else "header checked, nothing written"), bounds="all type signatures, every buffer-size parameter",
+                functions=["%s.rs open_with_params" % f], cap=400) for f in ("key", "val") for e in ("new", "existing")]
+B_SYNC = B("b_sync_plumbing", "VarFile::flush / sync_all / sync_data reach the buffer flush and the matching OS sync in the order write < flush < sync; a failing write-back is handed to the caller and leaves the buffer dirty", cap=300,
+           functions=["vfile.rs VarFile::flush", "vfile.rs VarFile::sync_all", "vfile.rs VarFile::sync_data"])
+B_CODEC = [B("b_codec_" + k, "field codec %s: bytes = documented vu64 pattern of value(/8), width = encoded length, no other byte touched, reads back, reader stops behind the field" % k, bounds="ALL values of the field type", cap=400,
+             functions=["vfile.rs write_/read_ %s" % k, "vu64::io"]) for k in ("offset", "size", "keylen", "vallen", "free_link")]
+B_ZERO = B("b_zero_to_offset", "write_zero_to_offset zeroes exactly [pos, target), never beyond, no-op when target <= pos", cap=300, functions=["vfile.rs write_zero_to_offset"])
+
 PROPS = {}
 
 
@@ -121,9 +164,6 @@ prop("C09", [K_VSLOT, K_VSLOT_2G, K_KSLOT, K_KSLOT_16M, K_ROUNDUP],
      bounds="value length <= 2^24 (quick) / 2^31-16 (thorough); key length <= 2^16 / 2^24; offsets < 2^56 / 2^64",
      outside=["lengths >= 2^31 (u32 arithmetic of the crate wraps; beyond the property's 'at least 16 MiB')"])
 prop("C10", K_INT + K_BYTES, bounds="all 64-bit integers; byte keys up to 8 bytes", outside=["memcmp on byte keys longer than 8 bytes"])
-prop("C12", K_HASH() + [K_VU64, K_SIGV], bounds="keys up to 17 bytes; all u64", outside=[])
-prop("C13", [K_SIGD, K_SIGUV, K_SIGV], bounds="", outside=[])
-prop("C07", [K_CAP, K_CAP0], bounds="", outside=[])
 prop("C06", [K_ROUNDUP, K_LISTS], bounds="", outside=[])
 
 R_M = "M-harness rule: one inductive step of the real dbxxx.rs from an arbitrary valid state; see DESIGN 2."
@@ -136,3 +176,21 @@ prop("C03", M_FLUSH, trusted_base=TB_COMMON + M_TB, rule=R_M, bounds=M_BOUNDS,
      outside=["database-level FileDb::sync_all/sync_data over the name registries (BTreeMap<String,_>: see C11)", "what fsync really does; that rabuf's flush writes every dirty chunk (dependency; its byte model is validated natively)", "SIGKILL timing"])
 prop("C16", M_FAULT, trusted_base=TB_COMMON + M_TB, rule=R_M, bounds=M_BOUNDS,
      outside=["that a rabuf chunk stays dirty when its write fails, RLIMIT_FSIZE / ENOSPC behaviour of the OS (dependency and kernel): the abyssiniandb part - error propagation and the dirty flag - is what is decided"])
+
+R_B = "B-harness rule: the real byte-level function on a symbolic file image."
+prop("C04", list(M_ITER.values()) + [M_ITER_X[1], M_ITER_X[2]] + B_SCAN_SMALL + [B_SCAN_G[32], B_SCAN_G[64], B_SCAN_G[128], B_SCAN_G[256], B_SCAN_G[512], M_ITER_X[0], M_ITER_X[3]],
+     trusted_base=TB_COMMON + M_TB + B_TB, rule=R_M + " " + R_B, bounds="iterators: " + M_BOUNDS + "; bucket scan: tables of 1..16 buckets with every start index, 32..128 (thorough: ..512) buckets with every group-aligned start index, all table bytes symbolic",
+     outside=["modification during a traversal (excluded by the property)", "tables of more than 512 buckets: the scan code depends on n only through the loop bounds idx + 8 < n and idx < n and the 64-bucket stride, all of which are crossed at 128..512"])
+prop("C02", B_OPEN_EX + [B_OPEN_NEW] + B_OPEN_DAT + B_HDRW + [MV["lookup"], K_HASH()[0]],
+     trusted_base=TB_COMMON + M_TB + B_TB, rule=R_B, bounds="stored tables of 2 and 8 buckets with symbolic contents; all parameter values",
+     outside=["that rabuf's Drop writes every dirty chunk and that the OS returns what was written (dependency / kernel)", "reopen in another process", "the Rc handle graph of FileDb (see C11)",
+              "argument: reopening = a fresh FileDbXxxInner over the same three files; every M-harness builds its handle freshly over an ARBITRARY valid store state and leaves such a state behind, so nothing a handle remembers matters except the cached bucket count, which is decided here"])
+prop("C07", [K_CAP, K_CAP0, B_OPEN_NEW] + B_OPEN_EX + B_OPEN_DAT + [B_SCAN_SMALL[0], B_SCAN_SMALL[1], B_SCAN_SMALL[2], B_BUCKET[1], B_BUCKET[4], B_API[0], M_KT("vu64")["put_new"]],
+     trusted_base=TB_COMMON + M_TB + B_TB, rule=R_B, bounds="capacities < 2^60; bucket counts 1..16 at the byte level, 1 and 2 at map level (the map logic sees n only through hash mod n)",
+     outside=["that EVICTION inside rabuf is transparent (dependency code over real files: hashbrown + unsafe chunk pointers; symbolic execution did not finish in 15 min) - not applicable to this technique; what is decided is that the crate hands rabuf a legal configuration (>= 2 chunks) for every Size(v)",
+              "the alternative cargo feature sets (each is a different program)"])
+prop("C13", [K_SIGD, K_SIGUV, K_SIGV] + B_HDRR + B_OPENR, trusted_base=TB_COMMON + B_TB, rule=R_B, bounds="all 2^128 signature pairs",
+     outside=["the create(true) side effect of opening a MISSING file of a partially present map"])
+prop("C12", K_HASH() + [K_VU64, K_SIGV] + B_CODEC + B_HDRW + [B_API[0], B_API[1], B_BUCKET[8], B_OPEN_NEW, K_KSLOT, K_VSLOT],
+     trusted_base=TB_COMMON + B_TB, rule="differential: current code vs. the frozen format specification /verif/spec/format.rs, symbolic inputs", bounds="keys up to 17 bytes; all u64; all field values",
+     outside=["golden directories opened through the real file system under Kani (no file system there); the frozen spec itself is validated natively against files written by the pinned build (bin/validate_spec)", "other cargo feature sets' formats"])
